@@ -26,7 +26,7 @@ PROPS = {
         'assumptions': ['16/32-bit accesses are exercised through the CPU step harness (C01/C08), not here'],
     },
     'C01': {
-        'lean': ['H8.Props.C01', 'H8.Props.C08'],
+        'lean': ['H8.Props.C01', 'H8.Props.C08', 'H8.Props.C01M'],
         'gen': ['consts', 'buscost', 'busmap', 'dispatch'],
         'runs': [{'mode': 'step', 'shards': 16}],
         'rule': "single-step cases on the real Cpu (fetch+exec through the verif hook) from a tagged background memory (every byte = hash of its address) with the full register file, CCR, PC, cost and the complete delta of all five stores compared: per form of spec/isa.tbl every combination of the register fields (x2), all 256 initial CCR values, every value of immediate/bit/condition fields, seeded random instances with boundary-value register files and operand addresses at both ends of on-chip RAM, DRAM and the vector area; address registers with zero upper byte (the upper byte is C08's subject). distinct non-trivial = distinct (form, first instruction bytes, resulting register file) triples of in-domain cases.",
